@@ -281,7 +281,10 @@ class Env:
         k = t.get('k')
         if k in ('local', 'param'):
             v = self.vals.get(t.get('did'))
-            if v is not None and (str(t.get('t', '')).endswith('&') or str(t.get('t', '')).endswith('*') or k == 'param'):
+            ty = str(t.get('t', '')).strip()
+            while ty.endswith('const') or ty.endswith('volatile'):
+                ty = ty[:-5 if ty.endswith('const') else -8].strip()      # `node *const p`: still a pointer
+            if v is not None and (ty.endswith('&') or ty.endswith('*') or k == 'param'):
                 return v
             return t
         if k == 'un' and t.get('op') in ('++', '--', '++post', '--post') and isinstance(t.get('e'), dict):
@@ -301,8 +304,8 @@ class Env:
         return self.subst(t)
 
     def lvalue_key(self, lhs):
-        """canonical name of the storage location"""
-        return canon(self.subst_path(lhs))
+        """canonical name of the storage location (parameters by role, like everything else)"""
+        return canon(self.subst_path(lhs), self.roles)
 
     def subst_lvalue(self, t):
         return self.subst_path(t)
